@@ -36,8 +36,9 @@ type context struct {
 }
 
 type Type struct {
-	main *context        // main context
-	CR   compresult.Type // cr is the compilation result
+	main  *context        // main context
+	CR    compresult.Type // cr is the compilation result
+	stdin *bufio.Reader   // stdin is the reader shared by all READ instructions
 }
 
 // New creates a new virtual machine using memory from m and code and data from cr.
@@ -489,8 +490,12 @@ func (vm *Type) Run(retResult bool) (value.Type, error) {
 			}
 
 		case bytecode.READ:
-			b := bufio.NewReader(os.Stdin)
-			line, err := b.ReadString('\n')
+			// one reader for the life of the VM: a reader owns what it has buffered,
+			// so a reader per read would lose the lines after the first
+			if vm.stdin == nil {
+				vm.stdin = bufio.NewReader(os.Stdin)
+			}
+			line, err := vm.stdin.ReadString('\n')
 			if err != nil {
 				return vm.dumpStack(ctxp, ip, fmt.Errorf("read error %w", err))
 			}
